@@ -151,6 +151,12 @@ def sc_speedup(d, n, fit_idx, pred_idx, weights, nn=None, prior=0.0, gamma=0.5):
         # for the next (re)fit on other samples
         d.prove(md == {"gamma": gamma} and clf.metric_dict == {"gamma": gamma}, "wrapped_classifier_parameters_unchanged",
                 info=dict(speed_up=speed, metric_dict=repr(md)[:60]))
+        inner = getattr(w, "clf_", None)
+        if inner is not None and getattr(inner, "metric", None) != "precomputed":
+            # the classifier the wrapper keeps refitting: its bandwidth parameter is still the one configured (a number
+            # written back by fit would be reused - stale - for the next training set)
+            d.prove(inner.metric_dict == {"gamma": gamma}, "inner_classifier_parameters_unchanged",
+                    info=dict(speed_up=speed, metric_dict=repr(inner.metric_dict)[:60]))
     d.prove(d.eq_arr(outs[0][0], outs[1][0], 1e-12), "speed_up_same_frequencies")
     d.prove(d.eq_arr(outs[0][1], outs[1][1], 1e-12), "speed_up_same_probabilities")
     if weights:
